@@ -42,6 +42,7 @@ class PathCtx:
         self._divs_of: dict = {}
         self._ranges: dict = {}
         self.concretizer = None
+        self.forked_child = False
 
     # ------------------------------------------------------------ assumptions / queries
     def assume(self, f):
@@ -216,8 +217,18 @@ class PathCtx:
                 if rf == z3.unsat:
                     d = True
                 else:
-                    d = True
-                    self.pending.append(self.taken + [False])
+                    from . import forker
+
+                    role = forker.try_fork()
+                    if role == "child":
+                        d = False
+                        self.forked_child = True
+                        self.pending = []
+                    elif role == "parent":
+                        d = True
+                    else:
+                        d = True
+                        self.pending.append(self.taken + [False])
         self.taken.append(d)
         self.solver.add(c if d else z3.Not(c))
         return d
